@@ -36,7 +36,7 @@ P = {
   note="Trusted: as C01; class membership via the verif hook.",
   tech=TECH + " (tie H incl. exhaustive chains); exact-arithmetic search for the nesting clause", ref="DESIGN.md 6 C18"),
  "C05": dict(
-  text="Full at model level for all polygons inside the grid, valid or not: splitRing is total for any flags, returns repeat-free rings when the flags contain every repeated vertex, hit accounting flags exactly the centres recorded twice, shell CCW-or-zero / holes CW-or-zero (exactly opposite with reverse), every ring >= 3 vertices without keep, collapsed parts last as 1-2 vertex rings with keep, never an empty list, keep policy prefix theorem; routing premises discharged from C02. 'Visits no vertex twice' is PARTIAL WITH A REFUTATION: every returned ring is repeat-free (hence last <> first, no equal neighbours) or is a two-vertex line [p; p] (C05_rings_well_formed_partial, no premise); the exception is real: the former premise kmp_short_nodup (a spike-removal output of < 3 vertices is repeat-free) is false (C05_kmp_short_nodup_refuted: a 75-vertex chain over 3 centres without equal cyclic neighbours is reduced to [p; p]; C05_rings_well_formed_refuted: replayed, SnapPolygon with keep-points-and-lines returns the line [[8.5 8.5] [8.5 8.5]] for an in-grid ring); the conditional theorems C05_rings_well_formed(_routing_discharged) are kept but their premise is refuted.",
+  text="Full at model level for all polygons inside the grid, valid or not: splitRing is total for any flags, returns repeat-free rings when the flags contain every repeated vertex, hit accounting flags exactly the centres recorded twice, shell CCW-or-zero / holes CW-or-zero (exactly opposite with reverse), every ring >= 3 vertices without keep, collapsed parts last as 1-2 vertex rings with keep, never an empty list, keep policy prefix theorem; routing premises discharged from C02. No premise is left: C05_rings_well_formed(_routing_discharged) hold for every in-grid polygon (every returned ring is repeat-free; with two or more vertices last <> first and no equal neighbours). The premise they used to carry (kmp_short_nodup: a spike-removal output of < 3 vertices is repeat-free) is false of kmpDeduplicate itself (C05_kmp_short_nodup_refuted: a 75-vertex chain over 3 centres without equal cyclic neighbours is reduced to [p; p]) - finding F14, SnapPolygon returned a two-vertex line visiting its point twice; repaired in cleanupNewRing (closing vertex dropped again after spike removal, in a loop), after which short outputs are repeat-free by construction; C05_regression_F14, corpus/C05 replayed by the harness.",
   note="Trusted: as C01; orientation is the exact integer sign (float sign agrees except on zero-area rings, exempt in the property).",
   tech=TECH + " (tie H on ring structure for all four flag sets, real and synthetic grids)", ref="DESIGN.md 6 C05"),
  "C06": dict(
